@@ -239,6 +239,8 @@ func main() {
 	declare("initWaitSec", "Int", "0")
 	declare("poolPutCount", "Nat", "0")
 	declare("poolPutOnlyBeforeNilReturn", "Bool", "false")
+	declare("nestedLockCalls", "List String", `["?"]`)   // Type.Method->Callee: a call, made while a lock of the receiver is held, to a method of the same receiver that acquires one
+	declare("housekeepingCalls", "List String", "[]") // the caches whose Cleanup the one-minute ticker of startTokenCleanup runs
 	declare("randomFromCryptoRand", "Bool", "false")
 	declare("nonceBytes", "Nat", "0")
 	declare("verifierBytes", "Nat", "0")
@@ -669,6 +671,218 @@ func main() {
 	if _, ok := funcs["SessionManager.GetSession"]; ok {
 		set("poolPutCount", strconv.Itoa(putCount), funcs["SessionManager.GetSession"].decl, "")
 		set("poolPutOnlyBeforeNilReturn", strconv.FormatBool(putSafe), funcs["SessionManager.GetSession"].decl, "")
+	}
+
+	// ---- lock discipline of every receiver type (C05: no self-deadlock): sync.RWMutex is not reentrant, so a method that holds a
+	// lock of its receiver must not call a method of the same receiver that acquires one
+	{
+		recvName := func(fd *ast.FuncDecl) string {
+			if fd.Recv == nil || len(fd.Recv.List) != 1 || len(fd.Recv.List[0].Names) != 1 {
+				return ""
+			}
+			return fd.Recv.List[0].Names[0].Name
+		}
+		lockCall := func(call *ast.CallExpr, recv string) (field, op string, ok bool) {
+			sel, ok1 := call.Fun.(*ast.SelectorExpr)
+			if !ok1 {
+				return
+			}
+			switch sel.Sel.Name {
+			case "Lock", "RLock", "Unlock", "RUnlock":
+			default:
+				return
+			}
+			inner, ok2 := sel.X.(*ast.SelectorExpr)
+			if !ok2 {
+				return
+			}
+			id, ok3 := inner.X.(*ast.Ident)
+			if !ok3 || id.Name != recv {
+				return
+			}
+			return inner.Sel.Name, sel.Sel.Name, true
+		}
+		acquires := map[string]bool{}
+		for name, f := range funcs {
+			rn := recvName(f.decl)
+			if rn == "" || f.decl.Body == nil {
+				continue
+			}
+			ast.Inspect(f.decl.Body, func(n ast.Node) bool {
+				if _, isLit := n.(*ast.FuncLit); isLit {
+					return false
+				}
+				if c, ok := n.(*ast.CallExpr); ok {
+					if _, op, ok := lockCall(c, rn); ok && (op == "Lock" || op == "RLock") {
+						acquires[name] = true
+					}
+				}
+				return true
+			})
+		}
+		var nested []string
+		nMethods := 0
+		for name, f := range funcs {
+			rn := recvName(f.decl)
+			if rn == "" || f.decl.Body == nil || !acquires[name] {
+				continue
+			}
+			nMethods++
+			typ := name[:strings.IndexByte(name, '.')]
+			terminates := func(b *ast.BlockStmt) bool {
+				if b == nil || len(b.List) == 0 {
+					return false
+				}
+				switch b.List[len(b.List)-1].(type) {
+				case *ast.ReturnStmt:
+					return true
+				}
+				return false
+			}
+			copyH := func(h map[string]int) map[string]int {
+				c := map[string]int{}
+				for k, v := range h {
+					c[k] = v
+				}
+				return c
+			}
+			merge := func(into, from map[string]int) {
+				for k, v := range from {
+					if v > into[k] {
+						into[k] = v
+					}
+				}
+			}
+			// calls inside an expression or simple statement, in source order
+			scanCalls := func(n ast.Node, held map[string]int) {
+				if n == nil {
+					return
+				}
+				ast.Inspect(n, func(x ast.Node) bool {
+					if _, isLit := x.(*ast.FuncLit); isLit {
+						return false
+					}
+					c, ok := x.(*ast.CallExpr)
+					if !ok {
+						return true
+					}
+					if field, op, ok := lockCall(c, rn); ok {
+						switch op {
+						case "Lock", "RLock":
+							held[field]++
+						default:
+							if held[field] > 0 {
+								held[field]--
+							}
+						}
+						return true
+					}
+					if sel, ok := c.Fun.(*ast.SelectorExpr); ok {
+						if id, ok := sel.X.(*ast.Ident); ok && id.Name == rn && acquires[typ+"."+sel.Sel.Name] {
+							for _, v := range held {
+								if v > 0 {
+									nested = append(nested, name+"->"+sel.Sel.Name)
+									break
+								}
+							}
+						}
+					}
+					return true
+				})
+			}
+			var walk func(stmts []ast.Stmt, held map[string]int)
+			block := func(b *ast.BlockStmt, held map[string]int) {
+				if b == nil {
+					return
+				}
+				h2 := copyH(held)
+				walk(b.List, h2)
+				if !terminates(b) {
+					merge(held, h2)
+				}
+			}
+			walk = func(stmts []ast.Stmt, held map[string]int) {
+				for _, st := range stmts {
+					switch x := st.(type) {
+					case *ast.DeferStmt, *ast.GoStmt:
+					case *ast.BlockStmt:
+						walk(x.List, held)
+					case *ast.IfStmt:
+						if x.Init != nil {
+							walk([]ast.Stmt{x.Init}, held)
+						}
+						scanCalls(x.Cond, held)
+						block(x.Body, held)
+						switch e := x.Else.(type) {
+						case *ast.BlockStmt:
+							block(e, held)
+						case *ast.IfStmt:
+							walk([]ast.Stmt{e}, held)
+						}
+					case *ast.ForStmt:
+						if x.Init != nil {
+							walk([]ast.Stmt{x.Init}, held)
+						}
+						scanCalls(x.Cond, held)
+						block(x.Body, held)
+					case *ast.RangeStmt:
+						scanCalls(x.X, held)
+						block(x.Body, held)
+					case *ast.SwitchStmt:
+						if x.Init != nil {
+							walk([]ast.Stmt{x.Init}, held)
+						}
+						scanCalls(x.Tag, held)
+						for _, cc := range x.Body.List {
+							if c, ok := cc.(*ast.CaseClause); ok {
+								h2 := copyH(held)
+								walk(c.Body, h2)
+								merge(held, h2)
+							}
+						}
+					case *ast.TypeSwitchStmt:
+						for _, cc := range x.Body.List {
+							if c, ok := cc.(*ast.CaseClause); ok {
+								h2 := copyH(held)
+								walk(c.Body, h2)
+								merge(held, h2)
+							}
+						}
+					case *ast.SelectStmt:
+						for _, cc := range x.Body.List {
+							if c, ok := cc.(*ast.CommClause); ok {
+								h2 := copyH(held)
+								walk(c.Body, h2)
+								merge(held, h2)
+							}
+						}
+					default:
+						scanCalls(st, held)
+					}
+				}
+			}
+			walk(f.decl.Body.List, map[string]int{})
+		}
+		sort.Strings(nested)
+		if nMethods > 0 {
+			set("nestedLockCalls", leanStrList(nested), nil, fmt.Sprintf("%d methods acquire a lock of their receiver", nMethods))
+			facts["nestedLockCalls"].Pos = "*.go"
+		}
+	}
+	// ---- the one-minute housekeeping ticker (the harness hook runs the same calls next to live traffic)
+	if f, ok := funcs["TraefikOidc.startTokenCleanup"]; ok {
+		var hk []string
+		ast.Inspect(f.decl.Body, func(n ast.Node) bool {
+			if c, ok := n.(*ast.CallExpr); ok {
+				if sel, ok := c.Fun.(*ast.SelectorExpr); ok && sel.Sel.Name == "Cleanup" {
+					if in, ok := sel.X.(*ast.SelectorExpr); ok {
+						hk = append(hk, in.Sel.Name)
+					}
+				}
+			}
+			return true
+		})
+		set("housekeepingCalls", leanStrList(hk), f.decl, "")
 	}
 
 	if f, ok := funcs["SessionManager.getSessionOptions"]; ok {
